@@ -67,6 +67,9 @@ class PSFModelMachine(Machine):
             cfg['nyg'] = rng.pick([2, 2, 3])
             cfg['uniform'] = rng.chance(0.5)
             cfg['shuffle'] = rng.chance(0.6)
+            # reference positions in normalised field coordinates (less
+            # than a pixel apart) as well as in detector pixels
+            cfg['grid_scale'] = rng.pick([1.0, 1.0, 1.0, 0.01])
         return cfg
 
     def make_scene(self, rng, cfg):
@@ -92,6 +95,9 @@ class PSFModelMachine(Machine):
                                           for _ in range(nxg)]), 2))
             yg = list(np.round(np.cumsum([rng.uniform(4, 30)
                                           for _ in range(nyg)]) - 20, 2))
+        sc_ = cfg.get('grid_scale', 1.0)
+        xg = [round(float(x) * sc_, 6) for x in xg]
+        yg = [round(float(y) * sc_, 6) for y in yg]
         pos = [[float(x), float(y)] for y in yg for x in xg]
         if cfg['shuffle']:
             rng.shuffle(pos)
